@@ -22,6 +22,8 @@ OBLIGATION_MSGS = (
     'unreachable',
     'constant definition postcondition',
     'recommendation not met',
+    'unable to prove post-condition of closure',
+    'Call to non-static function fails to satisfy',
 )
 # messages that are neither: bookkeeping
 IGNORE_MSGS = ('aborting due to', 'automatically chose triggers', 'trigger ', 'Verus printed one or more',
